@@ -523,6 +523,12 @@ func (c *Ctx) BuildTables(ob *core.Obligation) *Tables {
 				pc = core.NewPathConds(fn)
 			}
 			consts, anyEsc, plainAny, dynamic := c.requiredTypes(args[2], ci.Block(), pc)
+			if p, isParam := args[2].(*ssa.Parameter); isParam && dynamic && p.Parent() == fn {
+				// a helper that is told the required type: what its callers tell it
+				if cs, ae, pa, ok := c.requiredTypesAtCallSites(fn, p); ok {
+					consts, anyEsc, plainAny, dynamic = cs, ae, pa, false
+				}
+			}
 			if dynamic {
 				continue // signature-driven (builtin arguments): compared through the Builtins table
 			}
@@ -545,6 +551,41 @@ func (c *Ctx) BuildTables(ob *core.Obligation) *Tables {
 	}
 	c.builtinsTable(t)
 	return t
+}
+
+// requiredTypesAtCallSites: the union of what every call of the helper fn passes for its
+// type-name parameter p (each resolved as at a direct call of the expression checker).
+func (c *Ctx) requiredTypesAtCallSites(fn *ssa.Function, p *ssa.Parameter) (TypeSet, bool, bool, bool) {
+	idx := paramIndex(fn, p)
+	consts := TypeSet{}
+	anyEsc, plainAny := false, false
+	n := 0
+	for _, g := range c.P.ModuleFunctions() {
+		if relOfFn(g) != relOfFn(fn) {
+			continue
+		}
+		var pc *core.PathConds
+		for _, ci := range core.Calls(g) {
+			if ci.Common().StaticCallee() != fn || idx < 0 || idx >= len(ci.Common().Args) {
+				continue
+			}
+			n++
+			if pc == nil {
+				pc = core.NewPathConds(g)
+			}
+			cs, ae, pa, dyn := c.requiredTypes(ci.Common().Args[idx], ci.Block(), pc)
+			if dyn {
+				return nil, false, false, false
+			}
+			for k := range cs {
+				consts[k] = true
+			}
+			anyEsc = anyEsc || ae
+			plainAny = plainAny || pa
+			c.Touch(g)
+		}
+	}
+	return consts, anyEsc, plainAny, n > 0
 }
 
 // requiredTypes resolves the type argument of a checkExpression call: a constant, or a
